@@ -93,7 +93,7 @@ Proof. intros [A B C D E _ _ _ _ _]. repeat split; try apply A; try apply C; try
 Lemma Inv_WF s : Inv s -> WF s.
 Proof. intros [_ _ _ _ _ A B _ _ _]. split; assumption. Qed.
 
-Lemma init_Inv : Inv init.
+Lemma init_Inv rs ms : Inv (init_u rs ms).
 Proof.
   constructor; cbn; intros; try tauto; try discriminate; try (split; reflexivity); try contradiction;
     try (exfalso; match goal with H : _ <> _ |- _ => apply H; reflexivity end).
